@@ -261,8 +261,32 @@ pub fn get_params(net: &Network) -> Vec<(String, Vec<f32>)> {
 pub fn build(cfg: &NetCfg, params: Option<&[P]>) -> Result<Network, String> {
     guard(|| {
         let mut net = Network::new(lib_shape(cfg.input));
-        for l in cfg.layers.iter() {
-            add_layer(&mut net, l);
+        // two ways to the same network: in every fourth configuration the top-level dense /
+        // convolution / deconvolution layers are first added with another activation and
+        // receive the configured one through `Network::set_activation` afterwards
+        let h0 = crate::rng::fnv(&cfg.describe());
+        let via_set_activation = (h0 / 25) % 4 == 0;
+        let mut later: Vec<(usize, Act)> = Vec::new();
+        for (i, l) in cfg.layers.iter().enumerate() {
+            match (via_set_activation, l.act()) {
+                (true, Some(real)) => {
+                    let mut decoy = ALL_ACTS[((h0 / 100) as usize + i) % ALL_ACTS.len()];
+                    if decoy == real {
+                        decoy = if real == Act::Tanh { Act::Relu } else { Act::Tanh };
+                    }
+                    let mut l2 = l.clone();
+                    match &mut l2 {
+                        LCfg::Dense { act, .. } | LCfg::Conv { act, .. } | LCfg::Deconv { act, .. } => *act = decoy,
+                        _ => {}
+                    }
+                    add_layer(&mut net, &l2);
+                    later.push((i, real));
+                }
+                _ => add_layer(&mut net, l),
+            }
+        }
+        for (i, real) in later {
+            net.set_activation(i, lib_act(real));
         }
         // the accumulation may be configured before or after the connections are made
         let late = (cfg.layers.len() + cfg.skips.len() + cfg.loops.len()) % 2 == 1;
